@@ -73,9 +73,18 @@ def check_tzif(P, R):
         R.ob(rule, "zih_s field offsets", True)
     sws = [s for s in fn.switches()]
     vsw = []
+    def is_version_byte(c):
+        return c is not None and c.get("k") == "ArraySubscriptExpr" and const_of(c["c"][1]) == 4
+    vvars = set()
     for s in sws:
         c = strip(s["c"][0])
-        if c is not None and c.get("k") == "ArraySubscriptExpr" and const_of(c["c"][1]) == 4:
+        if c is not None and c.get("k") == "BinaryOperator" and c.get("op") == "=" and is_version_byte(strip(c["c"][1])):
+            # switch ((ver = hdr[4])): the version is kept in a variable
+            vvars.add(strip(c["c"][0]).get("d"))
+            vsw.append(s)
+        elif is_version_byte(c):
+            vsw.append(s)
+        elif c is not None and c.get("k") == "DeclRefExpr" and c.get("d") in vvars:
             vsw.append(s)
     if len(vsw) != 2:
         raise AnalysisBroken("%s: expected two switches on the version byte in zif_open, found %d" % (rule, len(vsw)))
@@ -88,7 +97,8 @@ def check_tzif(P, R):
                 k = n.get("k")
                 if k == "CompoundAssignOperator" and n.get("op") == "+=":
                     lv = strip(n["c"][0])
-                    if lv is not None and fn.tu.types[lv["t"]].get("ptr"):
+                    if lv is not None and lv.get("k") == "DeclRefExpr" and (fn.tu.types[lv["t"]].get("ptr") or fn.tu.types[lv["t"]].get("int")):
+                        # a cursor into the file image, or the offset variable that is added to it
                         lf = _linear(fn, n["c"][1], hdrf)
                         if lf is None:
                             raise AnalysisBroken("%s: pointer advance `%s` not in linear form" % (rule, expr_text(n)))
